@@ -41,7 +41,8 @@ Regrouped(ob) ==
 
 \* classification of an analysed deviation (known finding): the tree explains the tokens once the pointer /
 \* reference / const markers written on a *typename* position (typedef target, instantiation list entry) are
-\* removed, i.e. the implementation accepted and dropped exactly those markers
+\* removed, i.e. the implementation accepted and dropped exactly those markers (a base class is such a position too:
+\* the instantiator keeps the typename of a templated base only)
 RECURSIVE DropAt(_, _)
 DropAt(toks, drop) == SelectSeq([i \in 1..Len(toks) |-> IF i \in drop THEN "" ELSE toks[i]], LAMBDA t : t # "")
 QualToks == {"*", "@", "&", "const"}
@@ -50,9 +51,12 @@ InTypedef(toks, i) ==
   \E j \in 1..i : toks[j] = "typedef" /\ \A k \in j..i : toks[k] # ";"
 InInstList(toks, i) ==
   \E j \in 2..i : toks[j] = "{" /\ toks[j - 1] = "=" /\ \A k \in j..i : toks[k] # "}"
+\* ... or in the base-class clause `class Name : <base> {`
+InBase(toks, i) ==
+  \E j \in 3..i : toks[j] = ":" /\ toks[j - 2] = "class" /\ \A k \in j..i : toks[k] \notin {"{", ";"}
 ExplainsAfterDroppingOneQual(tree, toks) ==
   \E i \in 1..Len(toks) : /\ toks[i] \in QualToks
-                          /\ (InTypedef(toks, i) \/ InInstList(toks, i))
+                          /\ (InTypedef(toks, i) \/ InInstList(toks, i) \/ InBase(toks, i))
                           /\ Explains(tree, DropAt(toks, {i}))
 
 \* classification of a rejected well-formed input (known finding): a two-word basic type is an entry of an
